@@ -239,7 +239,12 @@ def run_property(pid, tier, seed, jobs=None, only=None):
                         f2 = ex.submit(_run_instance, (name, seed, tuple(active), budget_scale, ch,
                                                        min(hs * 2, 60.0), r.get("deadline")))
                         live[f2] = (name, min(hs * 2, 60.0))
-                _merge(merged, r, len([1 for v in live.values() if v[0] == name]) == 0)
+                last = len([1 for v in live.values() if v[0] == name]) == 0
+                _merge(merged, r, last)
+                if last and os.environ.get("VERIF_VERBOSE"):
+                    m = merged[name]
+                    print("  finished %-40s paths=%-7s oblig=%-8s cpu=%-7s %s" % (name[:40], m.get("paths"), m.get("obligations"),
+                          round(m.get("wall_s", 0), 1), ("CEX:" + m["cex"]["label"]) if m.get("cex") else ""), flush=True)
         results = list(merged.values())
     for r in results:
         if os.environ.get("VERIF_VERBOSE"):
